@@ -94,6 +94,8 @@ def run(scn, seed, line_p=0.05, stick=0.5, decisions=None, rpc_timeout=2):
         br.handlers['Connection.Close'] = hold
     mark = len(br.ledger_in)
     rt.line_p = line_p
+    if scn.get('max_steps'):
+        rt.max_steps = rt.steps + scn['max_steps']
     if scn.get('partial'):
         import errno
         import socket as real_socket
@@ -114,9 +116,18 @@ def run(scn, seed, line_p=0.05, stick=0.5, decisions=None, rpc_timeout=2):
     # broker events by number of client frames seen after the set-up
     events = sorted(scn.get('events', []), key=lambda e: e[0])
     fired = []
+    delivered = []
+
+    ev_t0 = [None]
+
+    def ev_due():
+        # a trigger the client never reaches fires by (virtual) time instead
+        if ev_t0[0] is None:
+            ev_t0[0] = rt.now
+        return ev_t0[0] + 0.15 * (len(fired) + 1)
 
     def ev_ready():
-        return bool(events) and len(br.ledger_in) - mark >= events[0][0]
+        return bool(events) and (len(br.ledger_in) - mark >= events[0][0] or rt.now >= ev_due())
 
     def ev_step():
         trig, act = events.pop(0)
@@ -131,9 +142,14 @@ def run(scn, seed, line_p=0.05, stick=0.5, decisions=None, rpc_timeout=2):
         elif k == 'deliver':
             st['dtag'] = st.get('dtag', 0) + 1
             br.deliver_message(act[1], act[2].decode('latin-1'), st['dtag'], act[3])
+            delivered.append((act[1], act[3]))
+        elif k == 'bcancel':
+            br.broker_cancel(act[1], act[2].decode('latin-1'))
         elif k == 'return':
             br.return_message(act[1], act[2], 'NO_ROUTE', b'ret')
-    rt.pseudo.append(crt.Pseudo('broker-event', ev_ready, ev_step))
+    pev = crt.Pseudo('broker-event', ev_ready, ev_step)
+    pev.wake = lambda: (ev_due() if events else None)
+    rt.pseudo.append(pev)
 
     def do(c, op):
         k = op[0]
@@ -147,6 +163,39 @@ def run(scn, seed, line_p=0.05, stick=0.5, decisions=None, rpc_timeout=2):
         if k == 'conn_open':
             conn.open()
             return 'CRNone'
+        if k == 'stop':
+            st['chans'][c].stop_consuming()
+            return 'CRNone'
+        if k == 'drain':
+            ch = st['chans'][c]
+            got = []
+
+            class Done(Exception):
+                pass
+
+            def cb(message):
+                got.append(message)
+                if len(got) >= op[1]:
+                    raise Done()
+            for t in list(ch._consumer_callbacks):
+                ch._consumer_callbacks[t] = cb
+            er = 'None'
+            try:
+                # as start_consuming does: keep processing until the channel closes
+                while not ch.is_closed:
+                    ch.process_data_events()
+            except Done:
+                pass
+            except crt.TaskKilled:
+                drained[(c, op[1])] = list(got)
+                raise
+            except Exception as why:
+                ec = err_coq(why)
+                if not ec:
+                    st.setdefault('other', []).append(repr(why))
+                    return 'CROther'
+                er = '(Some %s)' % ec
+            return '(CRBodies %s %s)' % (coq_list([coq_bytes(m._body) for m in got]), er)
         if k == 'sync_timer':
             # wait until the instant the next heartbeat timer is due
             due = [t.deadline for t in rt.timers if t.armed]
@@ -182,6 +231,7 @@ def run(scn, seed, line_p=0.05, stick=0.5, decisions=None, rpc_timeout=2):
 
     order = []
     extra = {}
+    drained = {}
 
     def at_return():
         from harness.chanrt import STATES as _ST
@@ -246,11 +296,15 @@ def run(scn, seed, line_p=0.05, stick=0.5, decisions=None, rpc_timeout=2):
     from harness.chanrt import STATES
     socks = sum(1 for s in rt.sockets if s.connected and not s.closed)
     obs = ('{| co_events := %s; co_wire := %s; co_final := %s; co_parse_ok := %s; '
-           'co_violations := %s; co_fired := %s; co_conn := %s; co_inv := (%s, %s, %s) |}' % (
+           'co_violations := %s; co_fired := %s; co_conn := %s; co_inv := (%s, %s, %s); '
+           'co_btags := %s; co_delivered := %s |}' % (
                events_coq, coq_list([wire_coq(ch, fr) for ch, fr in wire]), final,
                coq_bool(br.parse_error is None), coq_nat(len(br.violations)),
                coq_nat(len(fired)), STATES[conn_state],
-               coq_nat(socks), coq_nat(inv['live_threads']), coq_nat(inv['armed_timers'])))
+               coq_nat(socks), coq_nat(inv['live_threads']), coq_nat(inv['armed_timers']),
+               coq_list(['(%s, %s)' % (coq_nat(c), coq_list([coq_bytes(t.encode('latin-1')) for t in tags]))
+                         for c, tags in sorted(br.consumers.items())]),
+               coq_list(['(%s, %s)' % (coq_nat(c), coq_bytes(b)) for c, b in delivered])))
     info = dict(results={'%d.%d' % k: v for k, v in results.items()},
                 wire=[(ch, fr.name) for ch, fr in wire], hang=hang,
                 decisions=list(rt.decisions), violations=list(br.violations),
@@ -277,6 +331,10 @@ def cop_coq(op):
         return '(CConsume %s)' % coq_bytes(op[1])
     if k == 'cancel':
         return '(CCancel %s)' % coq_bytes(op[1])
+    if k == 'drain':
+        return '(CDrain %s)' % coq_nat(op[1])
+    if k == 'stop':
+        return 'CStop'
     return {'get': 'CGet', 'ack': 'CAck', 'open': 'COpenChan', 'check': 'CCheck',
             'conn_close': 'CConnClose', 'conn_open': 'CConnOpen', 'sync_timer': 'CCheck'}[k]
 
@@ -310,6 +368,7 @@ def scenario_coq(scn):
                     'connclose': lambda: '(EvConnClose %s)' % coq_Z(act[1]),
                     'drop': lambda: 'EvDrop',
                     'deliver': lambda: '(EvDeliver %s)' % coq_nat(act[1]),
+                    'bcancel': lambda: '(EvDeliver %s)' % coq_nat(act[1]),
                     'return': lambda: '(EvReturn %s %s)' % (coq_nat(act[1]), coq_Z(act[2]))}[k]())
     return ('{| cs_nchan := %s; cs_threads := %s; cs_confirm := %s; cs_events := %s |}' % (
         coq_nat(scn['nchan']),
